@@ -37,7 +37,26 @@ def collections(s, n):
             docs.append(gen.rand_message(rng, state, kind, 10 + k, ids, pool=pool,
                                          shape_weights=(0.45, 0.3, 0.2, 0.05), selfref=0.15))
         rng.shuffle(docs)
-        K.collection_merge(s, docs, strict=False, ctx={'collection': c})
+        judge_collection_state(s, docs, c)
+
+
+def judge_collection_state(s, docs, c):
+    """Every inner add is judged by the monitor; in addition the collection's running order at the end is what
+    adding the messages one by one (skipping the failing ones) gives - a failing message changes nothing, and the
+    collection must not take anything back because of it either."""
+    from .. import events as EV
+    mc, cerr, merr, wl = K.collection_merge(s, docs, strict=False, ctx={'collection': c})
+    if mc is None:
+        return
+    fold_text, n_failed, ferr, applied = K.hand_fold(s, docs, False)
+    EV.drain()
+    s.evaluations += 1
+    s.note_sig(('collection-end-state', min(n_failed, 5), str(mc) == fold_text))
+    s.hist['collection_end_states'] += 1
+    if ferr is None and merr is None and str(mc) != fold_text:
+        s.custom_violation('failing-message-in-a-non-strict-collection-changed-the-running-order',
+                           {'n_docs': len(docs), 'failing_messages': n_failed},
+                           {'type': 'collection-state', 'docs': docs}, status='collection')
 
 
 def odd_timing_inserts(s, n_states):
@@ -182,6 +201,8 @@ def duplicate_id_cases(s):
 
 def replay(s, data):
     w = data['witness']
+    if w.get('type') == 'collection-state':
+        return judge_collection_state(s, w['docs'], 0)
     if w.get('type') == 'forced':
         judge_forced(s, w['ro_txt'], w['msg_txt'], w['cls'])
         return
